@@ -47,6 +47,7 @@ type UnitSpec struct {
 	Quick    TierSpec `json:"quick"`
 	Thorough TierSpec `json:"thorough"`
 	Findings []string `json:"findings,omitempty"` // known-finding ids whose class this harness can exclude
+	Race     bool     `json:"race,omitempty"`     // native replays of this unit run under the race detector
 }
 
 type CheckSpec struct {
@@ -388,6 +389,7 @@ type Vector struct {
 	Expect   string            `json:"expect,omitempty"` // e.g. "assert:label", "panic"
 	Obs      []string          `json:"obs,omitempty"`
 	What     string            `json:"what,omitempty"`
+	Race     bool              `json:"race,omitempty"`
 }
 
 type NativeOut struct {
@@ -430,7 +432,16 @@ func nativeReplay(pkgDir string, vecs []Vector) ([]NativeOut, error) {
 		return nil, err
 	}
 	defer os.Remove(vecFile)
-	cmd := exec.Command("go", "test", "-v", "-vet=off", "-count=1", "-timeout", "20m", "-run", "^TestVPReplay$", "-overlay", ovFile, "./"+pkgDir)
+	argv := []string{"test", "-v", "-vet=off", "-count=1", "-timeout", "20m", "-run", "^TestVPReplay$", "-overlay", ovFile}
+	race := false
+	for _, v := range vecs {
+		race = race || v.Race
+	}
+	if race {
+		argv = append(argv, "-race")
+	}
+	argv = append(argv, "./"+pkgDir)
+	cmd := exec.Command("go", argv...)
 	cmd.Dir = repoDir()
 	cmd.Env = append(os.Environ(), "VP_REPLAY="+vecFile, "GOFLAGS=-mod=mod", "GOPROXY=off", "GOSUMDB=off", "GOTOOLCHAIN=local")
 	out, runErr := cmd.CombinedOutput()
@@ -440,6 +451,16 @@ func nativeReplay(pkgDir string, vecs []Vector) ([]NativeOut, error) {
 			var n NativeOut
 			if e := json.Unmarshal([]byte(l[len("VP-RESULT "):]), &n); e == nil {
 				res = append(res, n)
+			}
+		}
+	}
+	if race && strings.Contains(string(out), "DATA RACE") {
+		// the race detector saw concurrent readers race: every vector that
+		// otherwise passed is marked (the harness runs them concurrently only
+		// where that is the point of the assertion)
+		for i := range res {
+			if res[i].Outcome == "ok" {
+				res[i].Outcome = "race"
 			}
 		}
 	}
@@ -459,6 +480,9 @@ func tail(s string, n int) string {
 func outcomeMatches(expect, outcome string) bool {
 	if expect == "" {
 		return false
+	}
+	if outcome == "race" && strings.Contains(expect, "stores only into memory") {
+		return true
 	}
 	if expect == "panic" || strings.HasPrefix(expect, "panic:") {
 		return strings.HasPrefix(outcome, "panic:")
@@ -583,7 +607,10 @@ func cmdRun(args []string) int {
 
 	// 2. jobs
 	var jobs []Job
-	type jobMeta struct{ unit int }
+	type jobMeta struct {
+		unit int
+		race bool
+	}
 	var metas []jobMeta
 	baseCaps := CapSpec{Seconds: 600}
 	for ui, u := range spec.Units {
@@ -620,7 +647,7 @@ func cmdRun(args []string) int {
 			}
 			seen[key] = true
 			jobs = append(jobs, Job{ID: len(jobs), Pkg: u.Pkg, Harness: u.Harness, Case: cc, Caps: caps, Seed: seed, Cross: tier == "thorough" && os.Getenv("VERIF_NOCROSS") == ""})
-			metas = append(metas, jobMeta{ui})
+			metas = append(metas, jobMeta{ui, u.Race})
 		}
 	}
 	if len(jobs) == 0 {
@@ -654,7 +681,7 @@ func cmdRun(args []string) int {
 			if v.Kind == "panic" {
 				exp = "panic"
 			}
-			byPkg[jobs[ji].Pkg] = append(byPkg[jobs[ji].Pkg], pending{ji, true, vi, Vector{Property: prop, Pkg: jobs[ji].Pkg, Harness: jobs[ji].Harness, Case: jobs[ji].Case, Nondet: v.Nondet, Expect: exp, Obs: v.Obs, What: v.Label}})
+			byPkg[jobs[ji].Pkg] = append(byPkg[jobs[ji].Pkg], pending{ji, true, vi, Vector{Property: prop, Pkg: jobs[ji].Pkg, Harness: jobs[ji].Harness, Case: jobs[ji].Case, Nondet: v.Nondet, Expect: exp, Obs: v.Obs, What: v.Label, Race: metas[ji].race}})
 		}
 		nw := len(r.Witnesses)
 		maxW := 1
@@ -663,7 +690,7 @@ func cmdRun(args []string) int {
 		}
 		for wi := 0; wi < nw && wi < maxW; wi++ {
 			w := r.Witnesses[(wi+seed)%nw]
-			byPkg[jobs[ji].Pkg] = append(byPkg[jobs[ji].Pkg], pending{ji, false, wi, Vector{Property: prop, Pkg: jobs[ji].Pkg, Harness: jobs[ji].Harness, Case: jobs[ji].Case, Nondet: w.Nondet, Obs: w.Obs, What: boolStr(w.Order, "order-dependent", "")}})
+			byPkg[jobs[ji].Pkg] = append(byPkg[jobs[ji].Pkg], pending{ji, false, wi, Vector{Property: prop, Pkg: jobs[ji].Pkg, Harness: jobs[ji].Harness, Case: jobs[ji].Case, Nondet: w.Nondet, Obs: w.Obs, What: boolStr(w.Order, "order-dependent", ""), Race: metas[ji].race}})
 		}
 	}
 	type confirmed struct {
@@ -678,7 +705,23 @@ func cmdRun(args []string) int {
 	var replayErr []string
 	var rmu sync.Mutex
 	var rwg sync.WaitGroup
+	// vectors replayed under the race detector form their own batches
 	for pkg, ps := range byPkg {
+		var plain, raced []pending
+		for _, p := range ps {
+			if p.vec.Race {
+				raced = append(raced, p)
+			} else {
+				plain = append(plain, p)
+			}
+		}
+		if len(raced) > 0 && len(plain) > 0 {
+			byPkg[pkg] = plain
+			byPkg[pkg+"\x00race"] = raced
+		}
+	}
+	for pkg, ps := range byPkg {
+		pkg = strings.TrimSuffix(pkg, "\x00race")
 		rwg.Add(1)
 		go func(pkg string, ps []pending) {
 			defer rwg.Done()
